@@ -87,6 +87,15 @@ chk("C12", "exploration",
     "Hash-map orders and schedules are sampled, not enumerated; behaviour is compared through the harness's executors.",
     "runtime monitoring: N-version comparison of fresh processes over hash seeds, thread counts and enumeration orders", "DESIGN.md §4 C12")
 
+chk("C13", "exploration",
+    "Metamorphic rewrites (alpha-renaming with sites from an independent scope resolver, permutation of declarations and members, wrapping an expression in ( ) or { }, inserting the inferred type as let / lambda-parameter annotation, inserting inferred type arguments) are applied to accepted generator programs, rejected variants and the repository's samples; the checker's verdict must not flip and, for accepted programs, the reference interpreter's trace must not change.",
+    "Each rewrite is meaning preserving by the language definition; inferred types are only spliced when all named classes are visible; splitting a module is not implemented; sites are sampled.",
+    "runtime monitoring: metamorphic relation oracle over generated rewrites", "DESIGN.md §4 C13")
+chk("C15", "exploration",
+    "For random local bindings of generator programs and sample programs an independent scope resolver gives the defining occurrence(s) and all uses; go-to-definition and find-references are queried at every occurrence (two positions each) and must return exactly those; rename through a random occurrence to a fresh name must parse, keep the diagnostics, keep the occurrence count and the reference-interpreter trace, and renaming back must restore the formatted original.",
+    "Trusts the independent resolver (written from the spec's scoping rules); bindings are sampled.",
+    "runtime monitoring: ground-truth oracle (independent scope resolver) + metamorphic rename round trip", "DESIGN.md §4 C15")
+
 NA_REASON = "check under construction in this round (machinery not yet registered)"
 m = {
  "version": 1,
